@@ -2753,8 +2753,10 @@ class Partitions(Expr):
     def _simplify_down(self):
         from dask_expr import SetIndexBlockwise
 
-        if isinstance(self.frame, Blockwise) and not isinstance(
-            self.frame, (BlockwiseIO, Fused, SetIndexBlockwise)
+        if (
+            isinstance(self.frame, Blockwise)
+            and not isinstance(self.frame, (BlockwiseIO, Fused, SetIndexBlockwise))
+            and _partition_selection_commutes(self.frame)
         ):
             operands = [
                 (
@@ -2776,6 +2778,23 @@ class Partitions(Expr):
 
     def _node_label_args(self):
         return [self.frame, self.partitions]
+
+
+def _partition_selection_commutes(expr):
+    """Whether selecting output partitions of the blockwise ``expr`` equals
+    applying it to the selected input partitions. This is not the case for
+    operations whose tasks look at neighbouring partitions or depend on the
+    position of the partition in the collection."""
+    from dask_expr._indexing import LocBase
+
+    if isinstance(
+        expr,
+        (MapOverlap, Sample, Split, FillnaCheck, LocBase, BlockwiseHead, BlockwiseTail),
+    ):
+        return False
+    if isinstance(expr, MapPartitions) and expr._has_partition_info:
+        return False
+    return True
 
 
 class PartitionsFiltered(Expr):
